@@ -25,7 +25,8 @@ pub struct Case {
     pub scn: Scn,
     /// 0 all true, 1 single false, 2 plain cancelling pair inside one label, 3 plain cancelling pair across labels,
     /// 4 challenge-weighted cancellation across two labels carrying one point value,
-    /// 5 proofs swapped, 6 one proof duplicated over another, 7 one proof missing, 8 one proof surplus
+    /// 5 proofs swapped, 6 one proof duplicated over another, 7 one proof missing, 8 one proof surplus,
+    /// 9 a group element added to one label's proof and subtracted from another's (cancels under equal randomizers)
     pub variant: u8,
     pub sel: u64,
 }
@@ -35,7 +36,7 @@ pub fn case() -> impl Strategy<Value = Case> {
         scn_with(2, 5, 2),
         prop_oneof![
             1 => Just(0u8), 3 => Just(1u8), 2 => Just(2u8), 2 => Just(3u8), 3 => Just(4u8),
-            2 => Just(5u8), 1 => Just(6u8), 1 => Just(7u8), 1 => Just(8u8)
+            2 => Just(5u8), 1 => Just(6u8), 1 => Just(7u8), 1 => Just(8u8), 2 => Just(9u8)
         ],
         any::<u64>(),
     )
@@ -48,7 +49,65 @@ pub fn case() -> impl Strategy<Value = Case> {
         })
 }
 
-pub fn check_trait<S: Scheme>(c: &Case, ctx: &mut CaseCtx) -> Result<(), Failure> {
+/// Two proofs of one batch changed by +D / -D in the element the batch verifier accumulates with its
+/// own randomizers (KZG-style witness, IPA final commitment key): each label's single check rejects, and
+/// the batch equation is unchanged exactly when both labels get the same randomizer.
+pub trait Cancel: Scheme {
+    fn cancel_pair(_a: &Proof<Self>, _b: &Proof<Self>, _seed: u64) -> Option<(Proof<Self>, Proof<Self>)> {
+        None
+    }
+}
+fn kzg_pair(a: &ark_poly_commit::kzg10::Proof<E>, b: &ark_poly_commit::kzg10::Proof<E>, seed: u64) -> (ark_poly_commit::kzg10::Proof<E>, ark_poly_commit::kzg10::Proof<E>) {
+    use ark_ec::CurveGroup;
+    use ark_ff::UniformRand;
+    let d = G1::rand(&mut crate::util::rng(seed));
+    let (mut a, mut b) = (*a, *b);
+    a.w = (a.w + d).into_affine();
+    b.w = (b.w - d).into_affine();
+    (a, b)
+}
+impl Cancel for Marlin {
+    fn cancel_pair(a: &Proof<Self>, b: &Proof<Self>, seed: u64) -> Option<(Proof<Self>, Proof<Self>)> {
+        Some(kzg_pair(a, b, seed))
+    }
+}
+impl Cancel for Sonic {
+    fn cancel_pair(a: &Proof<Self>, b: &Proof<Self>, seed: u64) -> Option<(Proof<Self>, Proof<Self>)> {
+        Some(kzg_pair(a, b, seed))
+    }
+}
+impl Cancel for Pst13 {
+    fn cancel_pair(a: &Proof<Self>, b: &Proof<Self>, seed: u64) -> Option<(Proof<Self>, Proof<Self>)> {
+        use ark_ec::CurveGroup;
+        use ark_ff::UniformRand;
+        let d = G1::rand(&mut crate::util::rng(seed));
+        let (mut a, mut b) = (a.clone(), b.clone());
+        if a.w.is_empty() || b.w.is_empty() {
+            return None;
+        }
+        let k = (seed % a.w.len().min(b.w.len()) as u64) as usize;
+        a.w[k] = (a.w[k] + d).into_affine();
+        b.w[k] = (b.w[k] - d).into_affine();
+        Some((a, b))
+    }
+}
+impl Cancel for Ipa {
+    fn cancel_pair(a: &Proof<Self>, b: &Proof<Self>, seed: u64) -> Option<(Proof<Self>, Proof<Self>)> {
+        use ark_ec::CurveGroup;
+        use ark_ff::UniformRand;
+        let d = JProj::rand(&mut crate::util::rng(seed));
+        let (mut a, mut b) = (a.clone(), b.clone());
+        a.final_comm_key = (a.final_comm_key + d).into_affine();
+        b.final_comm_key = (b.final_comm_key - d).into_affine();
+        Some((a, b))
+    }
+}
+impl Cancel for Hyrax {}
+impl Cancel for ULigero {}
+impl Cancel for MLigero {}
+impl Cancel for Brakedown {}
+
+pub fn check_trait<S: Cancel>(c: &Case, ctx: &mut CaseCtx) -> Result<(), Failure> {
     let tier = current_tier();
     let Ok(sess) = Session::<S>::build(&c.scn, tier) else {
         ctx.label("build_failed(C01)");
@@ -189,6 +248,35 @@ pub fn check_trait<S: Scheme>(c: &Case, ctx: &mut CaseCtx) -> Result<(), Failure
             proofs.remove(g1);
             list_changed = true;
             ctx.nontrivial = true;
+        }
+        9 => {
+            // prefer two labels that carry the same point value (there the KZG batch equation is blind
+            // to +D/-D under equal randomizers)
+            let (mut ga, mut gb) = (g1, g2);
+            for i in 0..ng {
+                for j in 0..ng {
+                    if i != j && sess.groups[i].value_idx == sess.groups[j].value_idx {
+                        ga = i;
+                        gb = j;
+                    }
+                }
+            }
+            match (ga != gb).then(|| S::cancel_pair(&proofs[ga], &proofs[gb], sel >> 24)).flatten() {
+                Some((pa, pb)) => {
+                    proofs[ga] = pa;
+                    proofs[gb] = pb;
+                    list_changed = true;
+                    ctx.nontrivial = true;
+                    ctx.label("cancelling_proof_elements_across_labels");
+                    ctx.label_if(sess.groups[ga].value_idx == sess.groups[gb].value_idx, "cancelling_across_labels_sharing_a_point");
+                }
+                None => {
+                    variant = 1;
+                    let p = pick_poly(g1, sel >> 24);
+                    *evals.get_mut(&key(g1, p)).unwrap() += d;
+                    all_true = false;
+                }
+            }
         }
         _ => {
             let p = proofs[g1].clone();
@@ -459,7 +547,7 @@ pub fn spec() -> PropertySpec {
     units.push(PropUnit::new("C05:skzg:multi-vs-truth", 300, 2400, 2, |_| sk_case().boxed(), check_sk));
     PropertySpec {
         id: "C05",
-        rule: "Query sets with >=2 point labels (few distinct point values, so labels share them) over 2-5 polynomials; variants: all true, one false claim, plain cancelling pair (+d,-d) inside one label, across two labels, challenge-weighted cancellation across two labels that carry one point value (opening challenges replayed by the harness; Marlin/Sonic/PST13 schedules), proofs swapped / duplicated / one missing / one surplus. Oracles: (a) the batch decision is the same under three verifier RNG seeds; (b) it equals the AND of the scheme's own single-point checks run label by label on one threaded sponge with the same proof list; (c) it equals the ground truth (accept iff every claim is true and the proof list is the honest one; swapped or duplicated proofs count as changed only if their bytes differ). KZG10::batch_check is compared with KZG10::check on claims whose points come from a pool of <=2 values (adjacent same-point claims included); streaming verify_multi_points is compared with the truth of every (polynomial, point) claim under a random batching challenge. Non-trivial: a false claim outside the first label, a cancelling pair, or a proof-list change.",
+        rule: "Query sets with >=2 point labels (few distinct point values, so labels share them) over 2-5 polynomials; variants: all true, one false claim, plain cancelling pair (+d,-d) inside one label, across two labels, challenge-weighted cancellation across two labels that carry one point value (opening challenges replayed by the harness; Marlin/Sonic/PST13 schedules), proofs swapped / duplicated / one missing / one surplus, a random group element added to the accumulated proof element of one label and subtracted from another's (KZG witness, PST13 witness, IPA final key). Oracles: (a) the batch decision is the same under three verifier RNG seeds; (b) it equals the AND of the scheme's own single-point checks run label by label on one threaded sponge with the same proof list; (c) it equals the ground truth (accept iff every claim is true and the proof list is the honest one; swapped or duplicated proofs count as changed only if their bytes differ). KZG10::batch_check is compared with KZG10::check on claims whose points come from a pool of <=2 values (adjacent same-point claims included); streaming verify_multi_points is compared with the truth of every (polynomial, point) claim under a random batching challenge. Non-trivial: a false claim outside the first label, a cancelling pair, or a proof-list change.",
         assumptions: vec![
             "the batching challenge / verifier RNG are honest randomness (degenerate challenges such as eta in {0,1} are outside the property)",
             "challenge-weighted cancellation *inside* one label is not generated: the library leaves absorbing the claimed values to the caller, so such claims verify by design",
